@@ -145,7 +145,10 @@ func parse(byteData []byte) (*DisallowedCerts, error) {
 	disallowed.IssuerLists = map[string]*IssuerList{}
 
 	for i := range certs {
-		cert, _ := x509.ParseCertificate(certs[i])
+		cert, err := x509.ParseCertificate(certs[i])
+		if err != nil {
+			return nil, err
+		}
 		entry := &Entry{
 			SerialNumber: cert.SerialNumber,
 		}
